@@ -230,8 +230,13 @@ def run(ctx):
     pt = install(ctx, st)
     ctx.enable_disturb(pt, 0.03)     # other legitimate library calls interleaved between cases (vf.gen.disturb)
     g = cfg()
+    # the rare residues (U with its selenium, O) under the labels that reach them: every selenium isotope, 33S/36S, T
+    g2 = cfg()
+    g2.letters = LETTERS + ['U', 'U', 'O', 'C', 'M']
+    g2.labels = ['82Se', '76Se', '77Se', '78Se', '74Se', '33S', '36S', 'T', '2H', '13C', '15N']
+    g2.p_isotope = 0.7
     for i in range(ctx.n(60000, 600000)):
-        p = gp.gen_pep(ctx.rng, g)
+        p = gp.gen_pep(ctx.rng, g2 if i % 12 == 5 else g)
         if i % 25 == 0:
             p = Pep(p.seq)      # unmodified peptides are returned unchanged
         run_case(ctx, st, pt, p, ctx.rng.random() < 0.5, ctx.rng.randint(3, 8))
